@@ -35,7 +35,7 @@ type config struct {
 	// a map-backed input generates code that does not compile (a C17 matter, reported
 	// there); the option is still exercised on all struct-backed inputs.
 	NoMap bool
-	Extra  string // appended at top level
+	Extra string // appended at top level
 }
 
 var (
@@ -81,6 +81,7 @@ func buildAll(cfgs []config) []built {
 		common.Broken("harness template: %v", err)
 	}
 	if _, err := probe.Driver(); err != nil {
+		probe.Cleanup()
 		common.Broken("%v", err)
 	}
 	out := make([]built, len(cfgs))
@@ -139,9 +140,11 @@ func runAll(builds []built, tier string, deadline time.Time) []c02lib.Result {
 			cmd.Stderr = os.Stderr
 			o, err := cmd.Output()
 			if err != nil {
+				probe.Cleanup()
 				common.Broken("harness of configuration %s failed: %v", b.Cfg.Name, err)
 			}
 			if err := json.Unmarshal(o, &out[i]); err != nil {
+				probe.Cleanup()
 				common.Broken("harness output of %s: %v: %.300s", b.Cfg.Name, err, o)
 			}
 		}(i, b)
@@ -182,6 +185,7 @@ func main() {
 		data      any
 	}
 	var violations []rep
+	violIdx := map[string]int{}
 	quirkSeen := map[string]rep{}
 	quirkCount := map[string]int{}
 	for _, r := range results {
@@ -203,7 +207,12 @@ func main() {
 				}
 				continue
 			}
-			violations = append(violations, rep{f.Sig + "@" + r.Config, what, data})
+			if j, seen := violIdx[f.Sig]; seen {
+				violations[j].what += ", " + r.Config
+				continue
+			}
+			violIdx[f.Sig] = len(violations)
+			violations = append(violations, rep{f.Sig, what, data})
 		}
 		for _, s := range r.Samples {
 			if r.Config == results[0].Config {
